@@ -11,7 +11,7 @@ def last_stmt(b):
     return field(b, "_statements")[len(field(b, "_statements")) - 1]
 
 
-contract(TR + "query_ast_visitor.visit_IfExp", props=["C04", "C13", "C01", "C02"],
+contract(TR + "query_ast_visitor.visit_IfExp", props=["C04", "C13", "C01", "C02"], replay="conditional_structure",
          params=dict(self=QV, node=IFEXP),
          requires=CVC_REQUIRES + [("parts", "field(node, 'test') != None and field(node, 'body') != None and field(node, 'orelse') != None"),
                                   ("cursor", "len(cursor(self)) >= 1 and all(b != None and live(b) for b in cursor(self))")],
